@@ -25,4 +25,16 @@ PROPS = {
                 "distinct by hash of the op line",
         "trusted": ["exact-arithmetic oracle of family `step` checks every clause of C02 on the implementation with num-bigint, independently of the Lean model"],
     },
+    "C05": {
+        "lean_modules": ["WP.Props.C05"],
+        "lean_support": [],
+        "families": [("hist", 8000, 400000)],
+        "history": True,
+        "rule": "hist: random histories (40-100 ops after each `H init`) of open / increase / decrease (Anchor or Pinocchio path, chosen per op) / "
+                "update-fees / collect / swap (both directions and modes, limits on and off initialized ticks) / clock / rewards on a real Whirlpool with "
+                "fixed, dynamic or mixed tick arrays; digest of the whole state compared with the model after every op; oracle recomputes pool liquidity and "
+                "every tick's net/gross/initialized from the positions; non-trivial = an operation that succeeded; distinct by hash of (op line, clock)",
+        "trusted": ["C05 in Lean: preservation proved for every operation except `swap` (obligation SwapPreserves, stated in WP/Props/C05.lean), plus the crossing algebra "
+                    "(range_shift, cross_preserves, range_const); the swap loop itself is decided by the history correspondence and the C05 oracle on the implementation"],
+    },
 }
